@@ -86,7 +86,8 @@ var c18Templates = map[string]string{
 	"ops.txt":      "{{ 1 + 2 - 3 * 4 / 5 // 6 % 7 ** 2 }}{{ x ~ 'y' == 'plainy' != false }}{{ 1 < 2 <= 3 > 0 >= 1 }}{{ t and not f or t }}{{ 2 in [1, 2] }}{{ 3 not in 1..2 }}{{ x starts with 'pl' }}{{ x ends with 'in' }}{{ 6 b-and 3 b-or 8 b-xor 1 }}{{ t ? 'a' : 'b' }}{{ -1 + +2 }}{{ {'k': [1, 2]}.k[1] }}{{ \"i#{1 + 1}\" }}",
 	"filters.html": "{{ x|upper|lower|title|capitalize|trim }}{{ items|length }}{{ items|join('-') }}{{ items|first }}{{ items|last }}{{ items|reverse|join }}{{ items|batch(2, 'f')|length }}{{ items|keys|join }}{{ items|merge([9])|length }}{{ 3.14159|round(2) }}{{ -5|abs }}{{ nothing|default('d') }}{{ x|url_encode }}{{ x|json_encode }}{{ x|replace({'a': 'b'}) }}{{ 'now'|date('Y')|length }}{{ x|escape('js') }}{{ x|raw }}",
 	// values shared by every context (one Go slice with spare capacity, one Go map): results built from them
-	"merge.txt": "{{ shared|merge([x])|join(',') }}|{{ shared|merge(items)|length }}|{{ sharedmap|merge({'a': x})|join(',') }}|{{ shared|reverse|join(',') }}|{{ shared|batch(1)|length }}|{{ shared|slice(0, 1)|merge([x, x])|join('+') }}",
+	"merge.txt":     "{{ shared|merge([x])|join(',') }}|{{ shared|merge(items)|length }}|{{ sharedmap|merge({'a': x})|join(',') }}|{{ shared|reverse|join(',') }}|{{ shared|batch(1)|length }}|{{ shared|slice(0, 1)|merge([x, x])|join('+') }}",
+	"sharedall.txt": "{{ shared|sort|join(',') }}|{{ shared|sort|first }}|{{ shared|keys|join }}|{{ shared|first }}{{ shared|last }}{{ shared|length }}|{{ shared|json_encode }}|{{ sharedmap|json_encode }}|{{ sharedmap|keys|join }}|{{ sharedmap|sort|join }}|{{ sharedmap|reverse|join }}|{{ sharedmap|first }}|{{ shared|default('d')|join }}|{{ shared|batch(3, x)|json_encode }}|{{ shared|slice(1)|join }}|{{ shared|slice(-1, 1)|merge(shared)|join }}|{% for k, v in sharedmap|merge(sharedmap) %}{{ k }}={{ v }}{% endfor %}|{% for v in shared|reverse %}{{ v }}{% endfor %}{{ shared|join }}",
 	// run-time errors after partial output inside every capturing construct
 	"failfilter.html": "{% filter upper %}partial-{{ x }}-{{ nofunc() }}{% endfilter %}",
 	"failset.html":    "{% set c %}partial-{{ x }}{{ nofunc() }}{% endset %}[{{ c }}]",
